@@ -15,3 +15,8 @@ claim("C18", "MIR ownership (forward move-flow) + who-may-call/write rules + com
       "once and releases only at zero), that emplace counts one reference per waiter plus one, that LRU pop never reads the pin list while "
       "acquire/release/clear maintain it, that is_outdated is the negated in-indexer flag written only by the Sentry wrapper, and that no code "
       "path writes or mutably borrows Record.data. Capacity re-establishment over sequences is not decided.", "DESIGN.md §4 C18")
+claim("C10", "MIR dependence slice with induction-value roots + async-aware dominance/must-pass rules + codec extraction",
+      "Decides that the append position recovered by TombstoneLog::open depends on partition base, page offset and in-page slot of the newest "
+      "tombstone (data-dependence slice whose roots are the scan loops' Iterator::next values), that append writes at slot_addr(tail), advances "
+      "the tail per tombstone, flushes the old page (error propagated) before loading another and flushes before returning with the result "
+      "returned, and that Tombstone::write/read agree field by field. Log wrap-around and crash atomicity are not decided.", "DESIGN.md §4 C10")
